@@ -47,13 +47,13 @@ PLANS["C02"] = {
     "own": ["grid", "drows"],
     "mc": [{
         "module": "MCGrid",
-        "quick": dict(MaxRows=3, MaxCells=2, MaxLate=1, MaxDetached=1, MaxHdr=2, MaxHist=6, ItemMode="plain", ReAdd=True),
-        "thorough": dict(MaxRows=4, MaxCells=2, MaxLate=2, MaxDetached=1, MaxHdr=2, MaxHist=8, ItemMode="plain", ReAdd=True),
+        "quick": dict(MaxRows=3, MaxCells=2, MaxLate=1, MaxDetached=1, MaxHdr=2, MaxHist=6, ItemMode="plain", ReAdd=True, Variant="repaired"),
+        "thorough": dict(MaxRows=4, MaxCells=2, MaxLate=2, MaxDetached=1, MaxHdr=2, MaxHist=8, ItemMode="plain", ReAdd=True, Variant="repaired"),
         "properties": ["RowsAppendOnly"],
     }],
     "simulate": [{"module": "MCGrid",
-                  "quick": dict(MaxRows=40, MaxCells=3, MaxLate=3, MaxDetached=3, MaxHdr=3, ItemMode="plain", ReAdd=True, _num=100, _depth=30),
-                  "thorough": dict(MaxRows=60, MaxCells=4, MaxLate=4, MaxDetached=4, MaxHdr=4, ItemMode="plain", ReAdd=True, _num=3000, _depth=40)}],
+                  "quick": dict(MaxRows=40, MaxCells=3, MaxLate=3, MaxDetached=3, MaxHdr=3, ItemMode="plain", ReAdd=True, Variant="repaired", _num=100, _depth=30),
+                  "thorough": dict(MaxRows=60, MaxCells=4, MaxLate=4, MaxDetached=4, MaxHdr=4, ItemMode="plain", ReAdd=True, Variant="repaired", _num=3000, _depth=40)}],
     "random": [{"gen": gens.gen_grid}],
     "min_scenarios": {"quick": 1000, "thorough": 10000},
     "assumptions": [
@@ -335,18 +335,18 @@ PLANS["C09"] = {
     "mc": [
         # every build history up to the bound (plain items)
         {"module": "MCGrid",
-         "quick": dict(MaxRows=3, MaxCells=2, MaxLate=1, MaxDetached=1, MaxHdr=1, MaxHist=5, ItemMode="plain", ReAdd=False),
-         "thorough": dict(MaxRows=3, MaxCells=2, MaxLate=1, MaxDetached=1, MaxHdr=2, MaxHist=7, ItemMode="plain", ReAdd=False),
+         "quick": dict(MaxRows=3, MaxCells=2, MaxLate=1, MaxDetached=1, MaxHdr=1, MaxHist=5, ItemMode="plain", ReAdd=False, Variant="repaired"),
+         "thorough": dict(MaxRows=3, MaxCells=2, MaxLate=1, MaxDetached=1, MaxHdr=2, MaxHist=7, ItemMode="plain", ReAdd=False, Variant="repaired"),
          "run_opts": {"extra": ["-final", "renderall"]}},
         # smaller shapes with items whose declared size disagrees with their text
         {"module": "MCGrid",
-         "quick": dict(MaxRows=2, MaxCells=1, MaxLate=1, MaxDetached=1, MaxHdr=1, MaxHist=5, ItemMode="mixed", ReAdd=False),
-         "thorough": dict(MaxRows=2, MaxCells=1, MaxLate=2, MaxDetached=1, MaxHdr=1, MaxHist=6, ItemMode="mixed", ReAdd=False),
+         "quick": dict(MaxRows=2, MaxCells=1, MaxLate=1, MaxDetached=1, MaxHdr=1, MaxHist=5, ItemMode="mixed", ReAdd=False, Variant="repaired"),
+         "thorough": dict(MaxRows=2, MaxCells=1, MaxLate=2, MaxDetached=1, MaxHdr=1, MaxHist=6, ItemMode="mixed", ReAdd=False, Variant="repaired"),
          "run_opts": {"extra": ["-final", "renderall"]}},
     ],
     "simulate": [{"module": "MCGrid",
-                  "quick": dict(MaxRows=40, MaxCells=3, MaxLate=3, MaxDetached=3, MaxHdr=3, ItemMode="mixed", ReAdd=False, _num=150, _depth=30),
-                  "thorough": dict(MaxRows=60, MaxCells=4, MaxLate=4, MaxDetached=4, MaxHdr=4, ItemMode="mixed", ReAdd=False, _num=3000, _depth=40),
+                  "quick": dict(MaxRows=40, MaxCells=3, MaxLate=3, MaxDetached=3, MaxHdr=3, ItemMode="mixed", ReAdd=False, Variant="repaired", _num=150, _depth=30),
+                  "thorough": dict(MaxRows=60, MaxCells=4, MaxLate=4, MaxDetached=4, MaxHdr=4, ItemMode="mixed", ReAdd=False, Variant="repaired", _num=3000, _depth=40),
                   "run_opts": {"extra": ["-final", "renderall"], "every": False}}],
     "random": [{"gen": gens.gen_total, "run_opts": {"every": False}}],
     "min_scenarios": {"quick": 5000, "thorough": 50000},
